@@ -75,7 +75,51 @@ func (m *MonC11) CheckStalled(w *World) {
 	}
 }
 
+// requestsAfterHTTPResponse: a finished HTTP request is a closed connection; no
+// access, call or auth request is made on its behalf after the response.
+func (m *MonC11) requestsAfterHTTPResponse(w *World) {
+	done := map[string]*HTTPCall{}
+	w.httpMu.Lock()
+	for _, h := range w.HTTP {
+		if h.Done && h.CID != "" {
+			done[h.CID] = h
+		}
+	}
+	w.httpMu.Unlock()
+	if len(done) == 0 {
+		return
+	}
+	m.class("http_requests_finished")
+	// an HTTP request checks access to a resource once: it holds back the events
+	// (reaccess included) that arrive while it loads, and is gone when answered
+	seen := map[string]int{}
+	for _, e := range w.Log() {
+		if e.Kind != "mq_req" || e.CID == "" {
+			continue
+		}
+		if h := done[e.CID]; h != nil && strings.HasPrefix(e.Subject, "access.") {
+			k := e.CID + "|" + e.Subject + "?" + e.Query
+			seen[k]++
+			if seen[k] == 2 {
+				m.viols = append(m.viols, Violation{Property: "C11", Class: "access_rechecked_for_http_request", Step: e.Step, T: e.T, Conn: -1,
+					Message: fmt.Sprintf("%s was requested a second time (t=%d) on behalf of HTTP request h%d (%s %s): a re-check for a request that is answered and gone", e.Subject, e.T, h.ID, h.Method, h.URL)})
+				return
+			}
+		}
+		h := done[e.CID]
+		if h == nil || e.T <= h.DoneT || e.Step <= w.stepOfT(h.DoneT) {
+			continue
+		}
+		if strings.HasPrefix(e.Subject, "access.") || strings.HasPrefix(e.Subject, "call.") || strings.HasPrefix(e.Subject, "auth.") {
+			m.viols = append(m.viols, Violation{Property: "C11", Class: "request_for_finished_http_request", Step: e.Step, T: e.T, Conn: -1,
+				Message: fmt.Sprintf("%s was requested at t=%d on behalf of HTTP request h%d (%s %s), which had been answered at t=%d", e.Subject, e.T, h.ID, h.Method, h.URL, h.DoneT)})
+			return
+		}
+	}
+}
+
 func (m *MonC11) OnEnd(w *World) []Violation {
+	m.requestsAfterHTTPResponse(w)
 	if m.hadWork {
 		m.nontriv = true
 		m.class("closed_with_work_outstanding")
@@ -217,7 +261,7 @@ func init() {
 		ID: "C11",
 		Profiles: []*Profile{
 			func() *Profile {
-				p := dataProfile("c11-base", map[string]int{"close": 0, "call": 5, "auth": 2, "tokreset": 3, "token": 3, "httpget": 1, "sysreset": 6, "reaccess": 3, "custom": 2})
+				p := dataProfile("c11-base", map[string]int{"close": 0, "call": 5, "auth": 2, "tokreset": 3, "token": 3, "httpget": 3, "httpburst": 5, "sysreset": 6, "reaccess": 4, "custom": 2})
 				p.MinOps, p.MaxOps, p.MaxConns, p.Prologue = 4, 16, 3, 60
 				p.Patterns = []string{">", "t.>", "t.a", "t.b"}
 				return p
